@@ -24,6 +24,9 @@ def diagnose(chk, case):
 
 
 SPEC = {
+    # code 2 = within the stated float tolerance but not bit-identical (or, for _shift_to_cone_interior, a
+    # different but valid shift amount): information only, as documented in design.d
+    "structure_code": 2,
     "props_file": "C13.v",
     "targets": ["theories/Props/C13.vo", "theories/Cones/Check.vo"],
     "header": HEADER,
